@@ -58,6 +58,13 @@ def main():
         steps = rng.choice([0, 1, 2, 3, 5, 8, 13, 40]); start = rng.randint(-5, 5)
         bad = sorted(set(start + rng.randint(1, steps + 2) for _ in range(rng.choice([0, 0, 1, 1, 2, 3]))))
         script.append("PWV %d %d %s" % (steps, start, " ".join(map(str, bad))))
+    # (a') the directed control sampler with k scripted candidates (control = increment per step, sampled step count)
+    for i in range(300 if quick else 15000):
+        start = rng.randint(-5, 5); target = start + rng.randint(-30, 30); k = rng.choice([1, 2, 2, 3, 4, 6])
+        cands = [(rng.choice([-3, -2, -1, 1, 2, 3, 5]), rng.choice([1, 2, 3, 5, 8, 12])) for _ in range(k)]
+        reach = sorted(set(start + u * j for u, n in cands for j in range(1, n + 1)))
+        bad = sorted(set(rng.choice(reach) for _ in range(rng.choice([0, 1, 2, 3, 5]))))
+        script.append("DCS %d %d %s | %s" % (start, target, " ".join(map(str, bad)), " ".join("%d %d" % cn for cn in cands)))
     rc, o, e, s = vf.sh([drv], input="\n".join(script) + "\n", timeout=600); c.step("correspond:impl-pwv", drv, s, rc == 0)
     rc2, o2, e2, s2 = vf.sh([model, "control"], input="\n".join(script) + "\n", timeout=600); c.step("correspond:model-pwv", model + " control", s2, rc2 == 0)
     ndiff = 0; first_diff = None; npred = 0; first_pred = None
@@ -69,6 +76,23 @@ def main():
             if first_diff is None or len(l) < len(first_diff[0]): first_diff = (l, a, b)
         # the statement on the implementation's own answer: counts and states consistent with the script
         w = a.replace("|", " ").split()
+        if l.startswith("DCS "):
+            # the statement on the implementation's own answer: the returned control run for the returned number of steps from
+            # the source stays valid and ends at the returned state; the control is one of the candidates, with at most its count
+            try:
+                hd, tl = l[4:].split("|"); hv = list(map(int, hd.split())); start, target, bad = hv[0], hv[1], set(hv[2:])
+                tv = list(map(int, tl.split())); cands = list(zip(tv[0::2], tv[1::2]))
+                u, n, dst = int(w[1]), int(w[2]), int(w[3])
+                okc = any(cu == u and n <= cn for cu, cn in cands)
+                okv = all((start + u * j) not in bad for j in range(1, n + 1))
+                if not okc or not okv or dst != start + u * n:
+                    npred += 1
+                    if first_pred is None: first_pred = (l, "getBestControl returned control %d for %d steps and state %d: %s" % (u, n, dst,
+                        "not a candidate with that many steps" if not okc else ("a step of the replay is invalid" if not okv else "the replay ends at %d" % (start + u * n))))
+            except Exception:
+                npred += 1
+                if first_pred is None: first_pred = (l, "no observation: " + a[:80])
+            continue
         try:
             steps, start = int(l.split()[1]), int(l.split()[2]); bad = set(map(int, l.split()[3:]))
             n1, r1 = int(w[2]), int(w[3]); exp = 0
@@ -138,7 +162,7 @@ def main():
             ndiff += 1
             if first_diff is None: first_diff = (j, "admission rule '%s'" % v, "predicate '%s'" % msg)
     c.cov.update({"evaluations": len(script) + len(jobs), "traces_validated_against_impl": len(script) + stats["runs"], "distinct_nontrivial": stats["status_5"] + stats["status_6"],
-                  "rule": "(a) %d scripted propagateWhileValid / propagate calls (0..40 steps, 0..3 invalid states placed on or just after the trajectory), all three entry points compared exactly; (b) %d runs: 8 control planners (RRT with / without intermediate states, SST, EST, KPIECE1, PDST, SyclopRRT, SyclopEST) x systems {first-order point, car with heading wrap; directed control sampler with k = 1 (default), 2, 4, 8 candidates} x environments x queries x step size {.01-.1} x min/max duration {1-5, +0..30} x threshold x seeds; non-trivial = run reporting a solution (replayed step by step)" % (len(script), len(jobs)),
+                  "rule": "(a) %d scripted propagateWhileValid / propagate / SimpleDirectedControlSampler::getBestControl (1-6 scripted candidates) calls (0..40 steps, 0..3 invalid states placed on or just after the trajectory), all three entry points compared exactly; (b) %d runs: 8 control planners (RRT with / without intermediate states, SST, EST, KPIECE1, PDST, SyclopRRT, SyclopEST) x systems {first-order point, car with heading wrap; directed control sampler with k = 1 (default), 2, 4, 8 candidates} x environments x queries x step size {.01-.1} x min/max duration {1-5, +0..30} x threshold x seeds; non-trivial = run reporting a solution (replayed step by step)" % (len(script), len(jobs)),
                   "disagreements": ndiff, "predicate_failures": npred, "predicate_failures_by_kind": dict(failures), "failing_runs": failing[:40], "histogram": dict(stats)})
     c.cov["samples"] = jobs[:3]
     c.cov["trusted_base"] += ["extraction (ExtrOcamlBasic) + extract/control_driver.ml; harness/control_driver.cpp (its own copy of both propagators, replay tolerance 1e-9 in the state-space metric)"]
